@@ -64,7 +64,7 @@ SEGS = ["a", "b", "a.b", "aXb", "%41", "A", "a%2Fb", "%", "a$", "a$b", "a+b", "c
 HOSTS = ["a", "b.a", "A", "a:8080"]
 HOSTPATS = ["a", r"b\.a", ".*", r".*\.a"]
 
-REV_ARGS = ["a", "ab", "a b", "a/b", "%41", "é", "", "a+b", "a?b#c", "100%", 7]
+REV_ARGS = ["a", "ab", "a b", "a/b", "%41", "é", "", "a+b", "a?b#c", "100%", 7, 1.5]
 
 
 # ----------------------------------------------------------------- rule tree
@@ -143,7 +143,7 @@ def ref_route(tree, host, path, default_host=None, real_ip=False):
 
 
 # ------------------------------------------------------------------- real side
-def build_app(tree, host_blocks=(), default_host=None, names=None):
+def build_app(tree, host_blocks=(), default_host=None, names=None, nest_tuple=False):
     """Real Application from a tree.  host_blocks: list of (hostpat, tree) added
     with add_handlers.  names: {rid: name} -> URLSpec(name=...)."""
     from tornado.web import Application, RequestHandler, URLSpec
@@ -163,9 +163,9 @@ def build_app(tree, host_blocks=(), default_host=None, names=None):
             if kids is None:
                 out.append(URLSpec(pat, H, {"rid": rid}, name=names.get(rid)))
             elif kind == "p":
-                out.append((pat, conv(kids)))
+                out.append((pat, tuple(conv(kids)) if nest_tuple else conv(kids)))
             else:
-                out.append((HostMatches(pat), conv(kids)))
+                out.append((HostMatches(pat), tuple(conv(kids)) if nest_tuple else conv(kids)))
         return out
 
     app = Application(conv(tree), default_host=default_host)
@@ -307,7 +307,7 @@ def reverse_case(st, case):
     host_blocks = []
     if embed == "top":
         tree = [leaf, catchall]
-    elif embed == "nested":
+    elif embed in ("nested", "nested-tuple"):      # nested-tuple: the nested rule sequence is a tuple, not a list
         tree = [["p", "/.*", "N", [leaf]], catchall]
     elif embed == "nested2":     # an earlier nested router that does not know the name
         tree = [["p", "/x/.*", "M", [["p", "/x/y", "Y", None]]], ["p", "/.*", "N", [leaf]], catchall]
@@ -322,7 +322,7 @@ def reverse_case(st, case):
     bad = []
     with World() as w:
         if case["variant"] == "app":
-            router = build_app(tree, host_blocks, names=names)
+            router = build_app(tree, host_blocks, names=names, nest_tuple=(embed == "nested-tuple"))
         else:
             router = build_router(tree, names=names)
         try:
@@ -568,9 +568,9 @@ class C31(Check):
             pat = ATOMS[name][0]
             ng = re.compile(pat).groups
             for args in itertools.product(REV_ARGS, repeat=ng):
-                for embed in ("top", "nested", "nested2", "hostblock", "hostrule"):
+                for embed in ("top", "nested", "nested2", "hostblock", "hostrule", "nested-tuple"):
                     for variant in ("app", "router"):
-                        if variant == "router" and embed == "hostblock":
+                        if variant == "router" and embed in ("hostblock", "nested-tuple"):
                             continue
                         yield dict(space="R", atom=name, args=list(args), embed=embed, variant=variant)
 
